@@ -8,7 +8,7 @@ git -C $WT reset -q --hard; git -C $WT checkout -q --detach $(git -C /repo rev-p
 export CARGO_NET_OFFLINE=true
 for d in "$@"; do
   d=$(realpath $d)
-  id=$(echo $d | sed 's#.*/\(C[0-9]*\)/\([0-9]*\)/*$#\1_\2#')
+  id=$(echo $d | sed 's#.*/\(C[0-9]*b\?\)/\([0-9]*\)/*$#\1_\2#')
   patch=$d/patch.diff; [ -f $d/patch.ported.diff ] && patch=$d/patch.ported.diff
   git -C $WT reset -q --hard; git -C $WT clean -fdq wgsl_to_wgpu/tests
   cp $d/demo.rs $WT/wgsl_to_wgpu/tests/demo_$id.rs
